@@ -149,6 +149,7 @@ func (f *Frame) instr(ins ssa.Instruction, st *State) bool {
 		}
 		fn := x.Fn.(*ssa.Function)
 		f.vals[x] = Val{Clo: &Closure{Fn: fn, Bind: bind}, T: un.allocRef(st, "closure"), Go: x.Type()}
+		f.closurePreconditions(fn, bind, st, x.Pos())
 	case *ssa.Lookup:
 		f.lookup(x, st)
 	case *ssa.MapUpdate:
@@ -838,6 +839,60 @@ func (f *Frame) selectInstr(x *ssa.Select, st *State) {
 	f.vals[x] = Val{Tup: tup}
 	// ghost-after F select: `selected` is the index of the case taken (-1: the default case of a non-blocking select)
 	f.runGhostHooks("select", map[string]Val{"selected": {T: idx, Go: types.Typ[types.Int]}}, st)
+}
+
+// closurePreconditions: what the contract of a closure requires of its CAPTURED variables has to hold where the closure is
+// made (its callers -- a worker, an expiry sweep -- cannot establish anything about them). Clauses that mention a parameter of
+// the closure cannot be evaluated here and are left to the call sites.
+func (f *Frame) closurePreconditions(fn *ssa.Function, bind []Val, st *State, pos token.Pos) {
+	un := f.un
+	ct := un.eng.contractFor(fn)
+	if ct == nil || f.pure || len(ct.Requires) == 0 || len(bind) != len(fn.FreeVars) {
+		return
+	}
+	env := map[string]Val{}
+	for i, fv := range fn.FreeVars {
+		b := bind[i]
+		if pt, isPtr := fv.Type().Underlying().(*types.Pointer); isPtr {
+			lv := b.LV
+			if lv == nil {
+				if b.T.S == "" {
+					return
+				}
+				lv = un.lvOfPointer(b.T, fv.Type())
+			}
+			env[fv.Name()] = Val{T: un.readLV(lv, st), Go: pt.Elem(), LVSelf: lv}
+		} else {
+			env[fv.Name()] = b
+		}
+	}
+	saved := f.clausePkg
+	f.clausePkg = ct.Pkg
+	defer func() { f.clausePkg = saved }()
+	for _, rq := range ct.Requires {
+		parts := f.splitGoal(rq.E, env, 0)
+		for pi, part := range parts {
+			var g Term
+			ok := true
+			func() {
+				defer func() {
+					if r := recover(); r != nil {
+						if _, u := r.(unsupported); !u {
+							panic(r)
+						}
+						ok = false
+					}
+				}()
+				scratch := st.clone()
+				g = f.eval(part, &evalCtx{env: env, cur: &scratch, old: &scratch}).T
+			}()
+			if !ok || g.Sort != SBool {
+				continue // mentions a parameter of the closure (or something not in scope here)
+			}
+			un.obligeNamed(st, fmt.Sprintf("closurepre:%s#%s%s@%s", shortFn(fn.String()), rq.label(), partSuffix(pi, len(parts)), un.siteTag("clo:"+fn.String(), pos)),
+				"precondition", rq.Text+" [captured variables, where the closure is made]", un.posOf(pos), g)
+		}
+	}
 }
 
 // guardOf: the lock that guards location lv (a `guarded T.f by mtx` declaration), if any.
